@@ -68,6 +68,32 @@ Theorem C16_tracked : forall fw cs incoming pkt h pr pl cs',
 Proof. exact allowed_tracked. Qed.
 Print Assumptions C16_tracked.
 
+(* Drop may equally be evaluated with "some rule of the direction matches" in place of the built tables (used by the
+   correspondence for port ranges too wide to build entry by entry inside Coq, e.g. 1-65535 = 65535 map entries). *)
+Theorem C16_drop_by_rules : forall cf inr outr fw cs incoming pkt h pr pl,
+  new_firewall cf inr outr = Some fw ->
+  drop_ct_m (rules_matcher cf inr outr) 0 cf cs incoming pkt h pr pl = drop_ct fw cs incoming pkt h pr pl
+  /\ forall tracked, drop_m (rules_matcher cf inr outr) cf incoming pkt h pr pl tracked = drop fw incoming pkt h pr pl tracked.
+Proof. exact drop_by_rules. Qed.
+Print Assumptions C16_drop_by_rules.
+
+Theorem C16_new_firewall_succeeds : forall cf inr outr,
+  (exists fw, new_firewall cf inr outr = Some fw) <-> forallb rule_valid inr && forallb rule_valid outr = true.
+Proof. exact new_firewall_some. Qed.
+Print Assumptions C16_new_firewall_succeeds.
+
+(* the full range is not "any": 1-65535 admits neither a non-first fragment nor (under proto any) ICMP *)
+Example C16_full_range_is_not_any :
+  let r := mkRule 0 1%Z 65535%Z [] [97; 110; 121] CNone CNone [] [] in
+  let cf := mkConf [((true, 167772161), 24)] [] false in
+  let pr := mkPeer [112] [] [] [((true, 167772165), 24)] [] in
+  rule_valid r = true /\
+  rule_matches cf true (mkPkt (true, 167772161) (true, 167772165) 65535 1 6 false) pr [] r = true /\
+  rule_matches cf true (mkPkt (true, 167772161) (true, 167772165) 0 0 6 true) pr [] r = false /\
+  rule_matches cf true (mkPkt (true, 167772161) (true, 167772165) 0 7 1 false) pr [] r = false /\
+  rule_matches cf true (mkPkt (true, 167772161) (true, 167772165) 0 0 6 false) pr [] r = false.
+Proof. vm_compute. repeat split; reflexivity. Qed.
+
 (* ---- non-vacuity and the interpretation choices as evaluated facts ---- *)
 Definition ex_cf := mkConf [((true, 167772161), 24)] [((true, 3232235520), 24)] false.   (* 10.0.0.1/24, unsafe 192.168.0.0/24 *)
 Definition ex_rules := [
